@@ -3,6 +3,7 @@
   Statements are the monitored predicates `Spec.C01.*` applied to the observable outcome of
   `Coord.cycle`, for every schedule, every `seriesWithRate` and every input.
 -/
+import Kvass.Pins.Coord
 import Kvass.Proofs.CoordKeep
 import Kvass.Proofs.CoordCrash
 
